@@ -341,3 +341,60 @@ def tla_set(xs):
             return '"%s"' % x
         return str(x)
     return "{" + ",".join(one(x) for x in xs) + "}"
+
+
+import collections
+
+
+def tour(edges, maxlen=40):
+    """Transition tour: a set of paths from the initial state that together cover every
+    distinct (state, op, arg, result-state) edge.  Each path repeatedly walks (BFS) to the nearest
+    uncovered edge; a path ends when the next walk would exceed maxlen (a single walk is never cut)."""
+    uniq = {}
+    for e in edges:
+        uniq.setdefault((e["s"], e["op"], e["arg"], e["t"]), e)
+    out = collections.defaultdict(list)
+    for k, e in uniq.items():
+        out[e["s"]].append((k, e))
+    targets = set(e["t"] for e in uniq.values() if e["t"] != e["s"])
+    cands = [e["s"] for e in edges if e["s"] not in targets]
+    init = cands[0] if cands else edges[0]["s"]
+    uncovered = set(uniq.keys())
+    paths = []
+
+    def walk(cur):
+        prev = {cur: None}
+        q = collections.deque([cur])
+        while q:
+            s = q.popleft()
+            for k, x in out[s]:
+                if k in uncovered:
+                    chain = [(k, x)]
+                    while prev[s] is not None:
+                        s, kx = prev[s]
+                        chain.append(kx)
+                    chain.reverse()
+                    return chain
+            for k, x in out[s]:
+                if x["t"] not in prev:
+                    prev[x["t"]] = (s, (k, x))
+                    q.append(x["t"])
+        return None
+
+    while uncovered:
+        path = []
+        cur = init
+        while True:
+            chain = walk(cur)
+            if chain is None:
+                break
+            if path and len(path) + len(chain) > maxlen:
+                break
+            for k, x in chain:
+                path.append(x)
+                uncovered.discard(k)
+            cur = chain[-1][1]["t"]
+        if not path:
+            break
+        paths.append(path)
+    return paths, len(uniq)
